@@ -5,7 +5,7 @@
    LinearOperator.__getitem__ and the per-class index arithmetic of _get_indices / _getitem. *)
 From Coq Require Import List ZArith Bool Arith Lia.
 Import ListNotations.
-Require Import C03.Model C03.Proofs C03.ProofsSlice C03.ProofsSize C03.ProofsClass C03.ProofsCat C03.ProofsDiag C03.ProofsFront.
+Require Import C03.Model C03.Proofs C03.ProofsSlice C03.ProofsSize C03.ProofsClass C03.ProofsCat C03.ProofsDiag C03.ProofsFront C03.ProofsGather.
 Open Scope Z_scope.
 
 (* ===================================================================================== *)
@@ -86,6 +86,12 @@ Theorem C03_getitem_basic_pinned_refuted :
   getitem_model Pinned true t idx = None /\
   getitem_model Fixed true t idx = Some (mkT [4]%nat [8;9;10;11]).
 Proof. vm_compute. repeat split; reflexivity. Qed.
+
+(* DenseLinearOperator._get_indices, i.e. tensor[(t_1, ..., t_n)] with one broadcasting index tensor per dimension (what
+   the absorbed path of __getitem__ ends in): the element-wise gather of the model is torch indexing, every rank *)
+Theorem C03_gather_is_torch_index : forall t ts r,
+  gather t ts = Some r -> torch_index_norm t (titems ts) = Some r.
+Proof. exact gather_is_torch_index. Qed.
 
 (* ===================================================================================== *)
 (** utils/getitem.py *)
@@ -240,6 +246,10 @@ Example C03_ex_front : (* x[-1, 1::2] and x[..., 0] on a 2 x 3 x 4 tensor satisf
      forallb basic index = true /\ torch_index t [RItem (IInt (-1)); RItem (ISlice (Some 1) None (Some 2))] = Some r /\ tshape r = [1; 4]%nat) /\
   getitem_model Fixed true t [REllipsis; RItem (IInt 0)] = Some (mkT [2;3]%nat [0;4;8;12;16;20]).
 Proof. vm_compute. split; [eexists; eexists; repeat split; reflexivity|reflexivity]. Qed.
+
+Example C03_ex_gather : (* x[[0,1],[2,0]] on a 2 x 3 matrix *)
+  gather (mkT [2;3]%nat [10;11;12;13;14;15]) [([2]%nat, [0;1]); ([2]%nat, [2;0])] = Some (mkT [2]%nat [12;13]).
+Proof. vm_compute. reflexivity. Qed.
 
 Example C03_ex_int_slice : in_range 4 (-4) = true /\ slice_sel (int_as_slice Pinned (-4)) 4 = Some (0, 1).
 Proof. split; vm_compute; reflexivity. Qed.
